@@ -211,6 +211,8 @@ void Simulate::ram_write16(uint32_t address, uint16_t data)
   {
     serial_write16(data);
   }
+
+  if (address == break_io) { exit(data & 0xff); }
 }
 
 void Simulate::ram_write32(uint32_t address, uint32_t data)
